@@ -67,6 +67,47 @@ CLAIMED = {
    text="4 kernel-checked theorems (Props/C17.lean) for pairs of replace steps with arbitrary slices on unbounded documents; for pairs of steps of every kind produced by random high-level operations on a common base document with separated ranges, the real code's rebased steps and the model's are compared by effect and the full convergence check (not dropped, both orders succeed, equal documents) runs on the real code.",
    note="Trusted: Lean kernel, model tied by sampling, harness. Theorems cover replace/replace pairs; pairs involving replace-around and markup steps are decided by correspondence + search only. 'Both orders succeed' is conditional in the theorems (decided by search).",
    design="§5 C17"),
+
+ "C04": dict(
+   technique="Lean 4 theorems: history bookkeeping invariant (alignment, recorded maps, replay) for any sequence of attempted steps; inverse maps; exact undo of replace / replace-around / attr / doc-attr / node-mark steps (conditional on the inverse applying, with the guards proved necessary); tie of invert by effect (model's inverse applied by the real code) + replay/undo oracle over random histories",
+   text="11 kernel-checked theorems (Props/C04.lean): history_inv over the model of Transform.step/maybe_step/add_step for histories of any length, invert_map_* position-wise, *_undo_partial giving document equality via token injectivity, and nodeMark_undo_needs_guard showing the single-mark inverse cannot work when two marks are displaced. Histories of up to 12 random Transform operations over the bundled-family schemas are replayed and undone on the real code; single steps are undone under every schema; the model's inverse is applied by the real code and must restore the document exactly when the real inverse does.",
+   note="Trusted: Lean kernel, models tied by sampling, harness. That the inverse step *applies* is decided by search (theorems are conditional on it). Open known findings (upstream semantics, matched by class): C04-leaf-retype, C04-node-mark-inverse. Exact undo of add_mark/remove_mark plans is covered through the per-step undo of the steps they emit (oracle), not by a planner theorem.",
+   design="§5 C04"),
+ "C10": dict(
+   technique="effect summary regenerated from the source on every run (AST mutation-site table with reaching definitions -> lean/Gen/Effects.lean, `decide +kernel`: no site is external) + Lean frame theorems (transform / mapping only append) + snapshot search over random histories",
+   text="Partial by nature: a pure model cannot prove absence of in-place mutation. The translator lists every syntactic mutation site (~320) of prosemirror/model and prosemirror/transform keyed by function, receiver, mutator and the definitions reaching the receiver, classifies it by rule (init / fresh / accumulator / private-state / pure-method / reviewed) and the kernel checks that none is external; 3 theorems show the accumulators change only by appending; the snapshot harness serialises every live document, fragment, slice, mark list, step and map before each operation of random histories and compares afterwards, plus the shared singletons.",
+   note="Trusted: the syntactic, intra-procedural escape analysis and its rule set (largest trusted piece; mutation through aliases made in another function, setattr or C extensions is invisible to it), the reviewed-sites table, Lean kernel for the `decide`, the snapshot harness. A new unclassifiable site breaks the theorem; the snapshot search then looks for a witness.",
+   design="§5 C10"),
+ "C11": dict(
+   technique="Lean 4 theorems: a step satisfying the monitor `respects` (range differs from the request only by structural tokens; inserted text is a subsequence of the requested text) preserves all text/leaf content before and after the range once it applies; recorded documents are valid (C01); relational tie: the monitor is evaluated by the compiled model on every step the real replace-family operations emit and each emitted step is applied by the model too; totality by search only",
+   text="4 kernel-checked theorems (Props/C11.lean) independent of the fitting heuristic and of the schema; on every run the seven replace-family operations are executed on generated documents/slices/nodes over the bundled-family schemas (totality, validity, content preservation) and random schemas (validity, content preservation), every emitted step passes `respects` and is reproduced by the model's apply.",
+   note="Trusted: Lean kernel, models tied by sampling, harness. Totality ('never raises') is NOT a theorem — it would need a model of the ~400-line fitting algorithm with termination and assertion-freeness — and is decided by search over the bundled-family schemas only (stated in evidence). Multi-step operations are covered by the oracle on the final document; the monitor is evaluated on single-step operations.",
+   design="§5 C11"),
+ "C12": dict(
+   technique="Lean 4 theorems: content_between answers 'no' only for ranges of open/close tokens; a structure-flagged step whose slice has no content preserves the text/leaf sequence exactly and yields a valid document; relational tie: `isStructuralAt` evaluated on every step split/join/lift/wrap emit + model apply; approve=>perform=>succeeds oracle for the seven helpers",
+   text="3 kernel-checked theorems (Props/C12.lean) incl. the path-based model of content_between related to the token sequence; on every run all helpers are asked at every position of generated documents, every approved edit is performed (must succeed, be valid, keep the leaf sequence), results must be in range and no helper may die with an internal error; emitted steps pass the structural monitor and are reproduced by the model.",
+   note="Trusted: Lean kernel, models tied by sampling, harness. 'An approved edit then succeeds' is decided by search (no model of the helpers' decision procedures). Open known findings (upstream algorithms, matched by class): C12-lift-split-invalid, C12-wrap-ignores-marks.",
+   design="§5 C12"),
+ "C15": dict(
+   technique="Lean 4 theorems: meaning of the checkable predicates isFill / isWrapChain, soundness AND completeness of the depth-first filler search with global seen-set, soundness of the breadth-first wrapper search; relational tie: the real answers of fill_before / find_wrapping are checked with the Lean predicates and compared (some/none, chain length) with the model's search; brute-force oracle",
+   text="6 kernel-checked theorems (Props/C15.lean) over arbitrary deterministic automata; every match state of every content automaton of the bundled-family and random schemas is queried with random following fragments / target types, the real answers must satisfy isFill / isWrapChain (evaluated by the compiled model), 'nothing' answers are cross-checked against the model's complete search and a brute-force enumeration, chains must be shortest; create_and_fill results are validated.",
+   note="Trusted: Lean kernel, model lean/PM/Fill.lean tied by sampling, harness. Guards: deterministic automaton (one edge per label — true of every subset-construction output; the harness dumps are checked), edge targets in range. Shortest-chain and completeness of find_wrapping are decided by brute force up to length 3, not by a theorem. create_and_fill is oracle-only.",
+   design="§5 C15"),
+ "C16": dict(
+   technique="Lean 4 theorems: for every pair that merges (both adjacency orders of replace steps incl. the empty-slice case, add/add and remove/remove mark steps) the merged step yields exactly the token sequence of the two-step result, hence equal documents in normal form and equal size delta; relational tie: the model's merged step applied by the real code reproduces the two-step result; oracle on real merges",
+   text="3 kernel-checked theorems (Props/C16.lean) from the token semantics of replace and mark steps; editing-shaped pairs (typing, backspacing, open slices, touching/overlapping mark ranges) over the bundled-family schemas are applied, merged and compared on the real code; the model's merge is applied by the real code as well.",
+   note="Trusted: Lean kernel, models tied by sampling, harness. That the merged step applies whenever the pair does is decided by search (theorems are conditional on it); which pairs merge is not pinned.",
+   design="§5 C16"),
+ "C18": dict(
+   technique="Lean 4 theorems: a step whose range lies within an isolating node leaves every token up to its open token and after its closing untouched (strict and boundary-inclusive forms, all step kinds; pure insertions remove nothing); exact tie of Slice.max_open; relational monitor on every emitted step; outside-tokens oracle incl. whole-content ranges; lift/split probes",
+   text="3 kernel-checked theorems (Props/C18.lean); Slice.max_open is compared exactly with the model for both flags; for every isolating node of generated documents of the isolating / table-like schemas, ranges inside it (incl. its whole content) are edited with all replace-family operations: old tokens before the opening and after the closing must survive in order with the node intact, emitted steps are reproduced by the model and classified by the monitor (about 99% fall under the theorem, the rest re-create the node's own close tokens and are decided by the oracle); lift_target / can_split must not cross the boundary.",
+   note="Trusted: Lean kernel, models tied by sampling, harness. The range-expansion / fitting heuristics are not modelled; the monitor is sufficient, not necessary (coverage reported in evidence). Interpretation fixed in DESIGN.md: content that does not fit inside may be placed after the re-closed node; nothing outside may be removed or rewritten.",
+   design="§5 C18"),
+ "C19": dict(
+   technique="Lean 4 theorems for the part that is logic: html.escape is lossless and leaves no raw markup, the mark-stack serializer carries the document text; exact tie of the serialised HTML with the model (PM/Dom.lean); search for everything in lxml/cssselect/re: parse terminates (alarm), never crashes, yields valid documents, context rules apply only under matching ancestors, serialise->parse round trip on whitespace-normal documents",
+   text="Partial by nature: 4 kernel-checked theorems (Props/C19.lean) about escaping and text preservation of the serializer model, which is compared string-for-string with the real serializer on generated documents; HTML import is exercised on generated fragments over the block / inline / list / table / ignorable vocabulary with whitespace, style attributes, missing attributes and comments under three schemas (basic, list, context-rule), each call under an alarm; results are validated by check() and the independent validator; round trip on whitespace-normal documents with rule-carried attributes.",
+   note="Trusted: Lean kernel, model tied by sampling, harness, lxml as independent HTML reader for the escaping oracle. NOT modelled: the parser's placement core, DOM walking, rule/selector/regex matching — termination and crash-freedom of import are decided by search only (stated in evidence).",
+   design="§5 C19"),
 }
 
 NOT_YET = {
